@@ -20,6 +20,8 @@ import SpsdkVerif.Proofs.AhabParse
 import SpsdkVerif.Proofs.AhabRom2
 import SpsdkVerif.Proofs.AhabRom3
 import SpsdkVerif.Proofs.AhabCert
+import SpsdkVerif.Proofs.AhabZero
+import SpsdkVerif.Proofs.AhabResign
 
 namespace SpsdkVerif.C06
 open SpsdkVerif SpsdkVerif.Misc SpsdkVerif.Ahab SpsdkVerif.AhabVerify
@@ -691,6 +693,193 @@ theorem cert_perm_complement_checked (b : Bytes) (p : PCert) (h : parseCert b = 
     rw [hu1, hc1.1, hc1.2.1]
   · cases h
 
+/-! ## 11. Phase 3: the unused container slots are zero filled - `hph` / `hphantom` derived, not assumed -/
+
+/-- every chip row of the database, both container generations, every target memory (NAND and non-NAND start address): the HEAD
+    (first 16 bytes) of every container slot `m < containers_max` lies in front of the first image address; the whole slots do
+    for version 1, and for version 2 unless the target is NAND (0xBC00 < 3 * 0x4000: `hstart` stays a hypothesis there) -/
+theorem chip_slots_before_images : ∀ r ∈ AhabConsts.chips, ∀ (tm : String) (v : Ver),
+      (∀ m, m < r.containersMax → m * v.containerSize + 16 ≤ (Chip.mk r tm).startAddr v) ∧
+      (v = .v1 ∨ (Chip.mk r tm).isNand = false → r.containersMax * v.containerSize ≤ (Chip.mk r tm).startAddr v) := by
+  have hmax3 : ∀ r ∈ AhabConsts.chips, r.containersMax ≤ 3 := by decide
+  intro r hr tm v
+  have hmax : r.containersMax ≤ 3 := hmax3 r hr
+  have hs : ∀ (v : Ver), (Chip.mk r tm).startAddr v = if (Chip.mk r tm).isNand then v.startAddrNand else v.startAddr := fun _ => rfl
+  have e1 : Ver.v1.containerSize = 1024 := rfl
+  have e2 : Ver.v2.containerSize = 16384 := rfl
+  have a1 : Ver.v1.startAddrNand = 7168 := rfl
+  have a2 : Ver.v1.startAddr = 8192 := rfl
+  have a3 : Ver.v2.startAddrNand = 48128 := rfl
+  have a4 : Ver.v2.startAddr = 49152 := rfl
+  cases v with
+  | v1 =>
+    rw [hs, e1, a1, a2]
+    refine ⟨fun m hm => ?_, fun _ => ?_⟩ <;> split <;> omega
+  | v2 =>
+    rw [hs, e2, a3, a4]
+    refine ⟨fun m hm => ?_, fun h => ?_⟩
+    · split <;> omega
+    · rcases h with h | h
+      · cases h
+      · rw [h]; simp only [Bool.false_eq_true, if_false]; omega
+
+/-- THE ZERO FILL of the export model: every byte behind the slots of the configured containers and in front of the first image
+    address is 0, whenever every container fits its slot and no image is explicitly placed in front of the start address -/
+theorem unused_slots_zero (c : CryptoOps) (img : Image) (bin : Bytes)
+    (hexp : img.export c = .ok bin) (hA : 0 < img.chip.imageAlignment)
+    (us : List UContainer) (hus : img.update c = .ok us)
+    (hfit : ∀ u ∈ us, BlobLenOK u.cont.sb ∧ ∀ cb, u.export img.ver = .ok cb → cb.length ≤ img.ver.containerSize)
+    (hge : ∀ p ∈ allPlaced us, img.chip.startAddr img.ver ≤ p.offset)
+    (k : Nat) (hk1 : us.length * img.ver.containerSize ≤ k) (hk2 : k < img.chip.startAddr img.ver) :
+    bin[k]? = some 0 :=
+  export_zero_fill c img bin hexp hA us hus hfit hge k hk1 hk2
+
+/-- ... hence no unused slot whose head lies in front of the first image address is taken for a container: neither by the
+    independent checker (`looksLikeContainer`) nor by the model of SPSDK's parser (`decodeHeader`) -/
+theorem no_phantom_container (c : CryptoOps) (img : Image) (bin : Bytes) (p : Spec.AhabRom.Params)
+    (hexp : img.export c = .ok bin) (hA : 0 < img.chip.imageAlignment)
+    (us : List UContainer) (hus : img.update c = .ok us)
+    (hfit : ∀ u ∈ us, BlobLenOK u.cont.sb ∧ ∀ cb, u.export img.ver = .ok cb → cb.length ≤ img.ver.containerSize)
+    (hge : ∀ p ∈ allPlaced us, img.chip.startAddr img.ver ≤ p.offset)
+    (m : Nat) (hm : us.length ≤ m) (hslot : m * img.ver.containerSize + 16 ≤ img.chip.startAddr img.ver) :
+    Spec.AhabRom.looksLikeContainer p bin (m * img.ver.containerSize) = false ∧
+    decodeHeader img.ver (bin.drop (m * img.ver.containerSize)) = none := by
+  have hz := export_zero_fill c img bin hexp hA us hus hfit hge (m * img.ver.containerSize + 3)
+    (by have := Nat.mul_le_mul_right img.ver.containerSize hm; omega) (by omega)
+  exact ⟨zero_not_container p bin _ hz, zero_not_header img.ver bin _ hz⟩
+
+/-- `rom_accepts_file` WITHOUT the phantom-head hypothesis: the only geometric assumptions left are about the configuration
+    (containers fit their slots, no explicit offset behind the cursor, slot heads in front of the start address - true for every
+    database row by `chip_slots_before_images` - and the containers end before the first image) -/
+theorem rom_accepts_file_closed (c : CryptoOps) (hc : CryptoLaws c) (img : Image) (bin : Bytes) (maxC maxI : Nat)
+    (hexp : img.export c = .ok bin) (hA : 0 < img.chip.imageAlignment)
+    (us : List UContainer) (hus : img.update c = .ok us) (hne : us ≠ []) (hmax : us.length ≤ maxC)
+    (hcont : ∀ u ∈ us, BlobLenOK u.cont.sb ∧ u.placed.length ≤ maxI ∧ SigKind img.ver u.cont ∧
+      (∀ cb, u.export img.ver = .ok cb → cb.length ≤ img.ver.containerSize) ∧
+      ∀ (i : Nat) (p : Placed), u.placed[i]? = some p → 0 < p.ready.size ∧
+        ¬ (Iae.isEncrypted img.ver p.entry.flags = true ∧ u.cont.sb.blob.isSome = false) ∧
+        (Iae.isEncrypted img.ver p.entry.flags = true → u.cont.sb.blob.isSome = true →
+          p.ready.size = p.ready.image.length ∧ (storedImage img.chip p.entry.data).length % 16 = 0 ∧ u.cont.dek.isSome = true))
+    (hslots : ∀ m, m < maxC → m * img.ver.containerSize + 16 ≤ img.chip.startAddr img.ver)
+    (ha : ExplicitAhead img.chip img.ver (img.chip.startAddr img.ver) (allPlaced us))
+    (hstart : us.length * img.ver.containerSize ≤ img.chip.startAddr img.ver) :
+    ∃ reps, Spec.AhabRom.ahabCheck c (romParams img.ver maxC maxI) bin (us.map dekOf) = .ok reps ∧ reps.length = us.length ∧
+      ∀ k u r, us[k]? = some u → reps[k]? = some r →
+        r.index = k ∧ r.base = k * img.ver.containerSize ∧ r.flags = u.cont.flags ∧ r.swVersion = u.cont.swVersion ∧
+        r.fuseVersion = u.cont.fuseVersion ∧ r.images = u.placed.map (repOf img.ver) ∧
+        u.export img.ver = .ok (Spec.AhabRom.slice bin r.base r.length) ∧
+        (r.sig = none ↔ u.cont.srkSet = 0) ∧
+        ∀ s, r.sig = some s → s.signedLen = sigBlockOffset img.ver u.placed.length + (sbLayout img.ver u.cont.sb).sigOff ∧
+          s.sigOff = r.base + s.signedLen + 8 ∧ s.sigLen = u.cont.sb.signature.length ∧ s.usedSrk = u.cont.usedSrkId ∧
+          (img.ver = .v1 → s.srkHash = c.hash .sha256 u.cont.sb.srk) := by
+  have hge := (offsets_disjoint c img us hus ha).2
+  refine rom_accepts_file c hc img bin maxC maxI hexp hA us hus hne hmax hcont ?_ ha hstart
+  intro m hm1 hm2
+  exact (no_phantom_container c img bin _ hexp hA us hus (fun u hu => ⟨(hcont u hu).1, (hcont u hu).2.2.2.1⟩) hge m hm1
+    (hslots m hm2)).1
+
+/-- `image_roundtrip` WITHOUT the phantom-head hypothesis -/
+theorem image_roundtrip_closed (c : CryptoOps) (hc : CryptoLaws c) (img : Image) (bin : Bytes) (maxC : Nat)
+    (hexp : img.export c = .ok bin) (hA : 0 < img.chip.imageAlignment)
+    (us : List UContainer) (hus : img.update c = .ok us) (hne : us ≠ [])
+    (hwf : ∀ u ∈ us, SbParseWF img.ver u.cont.sb) (hmax : us.length ≤ maxC)
+    (hfit : ∀ u ∈ us, ∀ cb, u.export img.ver = .ok cb → cb.length ≤ img.ver.containerSize)
+    (hslots : ∀ m, m < maxC → m * img.ver.containerSize + 16 ≤ img.chip.startAddr img.ver)
+    (ha : ExplicitAhead img.chip img.ver (img.chip.startAddr img.ver) (allPlaced us)) :
+    parseFile img.ver maxC bin = some (us.map (expectedP img.ver)) := by
+  have hge := (offsets_disjoint c img us hus ha).2
+  refine image_roundtrip c hc img bin maxC hexp hA us hus hne hwf hmax ?_
+  intro m hm1 hm2
+  exact (no_phantom_container c img bin (romParams img.ver maxC 0) hexp hA us hus
+    (fun u hu => ⟨(hwf u hu).blobLen, hfit u hu⟩) hge m hm1 (hslots m hm2)).2
+
+
+/-! ## 12. Phase 3: offsets never collide (arbitrary lists of containers and images), re-sign flow -/
+
+/-- NOTHING COLLIDES, for every number of containers and images: the images are in increasing order without overlap, the containers
+    are in increasing order without overlap, and every container ends before every image - whenever every container fits its
+    slot, no explicit offset points behind the cursor and the container slots end before the first image address -/
+theorem layout_never_collides (c : CryptoOps) (img : Image) (us : List UContainer) (hus : img.update c = .ok us)
+    (hfit : ∀ u ∈ us, ∀ cb, u.export img.ver = .ok cb → cb.length ≤ img.ver.containerSize)
+    (ha : ExplicitAhead img.chip img.ver (img.chip.startAddr img.ver) (allPlaced us))
+    (hstart : us.length * img.ver.containerSize ≤ img.chip.startAddr img.ver) :
+    (allPlaced us).Pairwise (fun p q => p.offset + p.ready.size ≤ q.offset) ∧
+    (∀ (j k : Nat) (u w : UContainer) (cu : Bytes), us[j]? = some u → us[k]? = some w → j < k → u.export img.ver = .ok cu → u.base + cu.length ≤ w.base) ∧
+    (∀ (j : Nat) (u : UContainer) (cu : Bytes), us[j]? = some u → u.export img.ver = .ok cu → ∀ p ∈ allPlaced us, u.base + cu.length ≤ p.offset) := by
+  have hd := offsets_disjoint c img us hus ha
+  have hb := (updateContainers_bases c img.chip img.ver img.containers 0 _ us hus).2
+  refine ⟨hd.1, ?_, ?_⟩
+  · intro j k u w cu hj hk hjk hcu
+    have b1 := (hb j u hj).2.1
+    have b2 := (hb k w hk).2.1
+    have hl := hfit u (List.mem_of_getElem? hj) cu hcu
+    rw [b1, b2, Nat.zero_add, Nat.zero_add]
+    have : (j + 1) * img.ver.containerSize ≤ k * img.ver.containerSize := Nat.mul_le_mul_right _ hjk
+    rw [Nat.add_mul, Nat.one_mul] at this
+    omega
+  · intro j u cu hj hcu p hp
+    have b1 := (hb j u hj).2.1
+    have hl := hfit u (List.mem_of_getElem? hj) cu hcu
+    have hjl : j < us.length := by
+      rcases Nat.lt_or_ge j us.length with h | h
+      · exact h
+      · rw [List.getElem?_eq_none h] at hj; cases hj
+    have := hd.2 p hp
+    rw [b1, Nat.zero_add]
+    have h2 : (j + 1) * img.ver.containerSize ≤ us.length * img.ver.containerSize := Nat.mul_le_mul_right _ hjl
+    rw [Nat.add_mul, Nat.one_mul] at h2
+    omega
+
+/-- ... instantiated for EVERY ROW of the chip database (family x revision), every target memory and both container generations:
+    with at most `containers_max` containers nothing collides (version 2 on NAND: with at most two containers; a third one
+    is covered by `layout_never_collides` when `hstart` is given) -/
+theorem layout_never_collides_chip (c : CryptoOps) (img : Image) (us : List UContainer) (hus : img.update c = .ok us)
+    (hrow : img.chip.row ∈ AhabConsts.chips) (hn : us.length ≤ img.chip.row.containersMax)
+    (hv : img.ver = .v1 ∨ img.chip.isNand = false ∨ us.length ≤ 2)
+    (hfit : ∀ u ∈ us, ∀ cb, u.export img.ver = .ok cb → cb.length ≤ img.ver.containerSize)
+    (ha : ExplicitAhead img.chip img.ver (img.chip.startAddr img.ver) (allPlaced us)) :
+    (allPlaced us).Pairwise (fun p q => p.offset + p.ready.size ≤ q.offset) ∧
+    (∀ (j k : Nat) (u w : UContainer) (cu : Bytes), us[j]? = some u → us[k]? = some w → j < k → u.export img.ver = .ok cu → u.base + cu.length ≤ w.base) ∧
+    (∀ (j : Nat) (u : UContainer) (cu : Bytes), us[j]? = some u → u.export img.ver = .ok cu → ∀ p ∈ allPlaced us, u.base + cu.length ≤ p.offset) := by
+  refine layout_never_collides c img us hus hfit ha ?_
+  have hc := chip_slots_before_images img.chip.row hrow img.chip.targetMemory img.ver
+  have heta : Chip.mk img.chip.row img.chip.targetMemory = img.chip := rfl
+  rw [heta] at hc
+  rcases hv with h | h | h
+  · exact Nat.le_trans (Nat.mul_le_mul_right _ hn) (hc.2 (Or.inl h))
+  · exact Nat.le_trans (Nat.mul_le_mul_right _ hn) (hc.2 (Or.inr h))
+  · rcases Nat.eq_zero_or_pos us.length with h0 | h0
+    · rw [h0]; omega
+    · have hm : us.length - 1 < img.chip.row.containersMax := by omega
+      have h1 := hc.1 (us.length - 1) hm
+      -- two version-2 slots (0x8000) end before both start addresses; version 1 is the first case
+      cases hver : img.ver with
+      | v1 => rw [hver] at hc; exact Nat.le_trans (Nat.mul_le_mul_right _ hn) (hc.2 (Or.inl rfl))
+      | v2 =>
+        have e2 : Ver.v2.containerSize = 16384 := rfl
+        have hs : img.chip.startAddr .v2 = if img.chip.isNand then Ver.v2.startAddrNand else Ver.v2.startAddr := rfl
+        have a3 : Ver.v2.startAddrNand = 48128 := rfl
+        have a4 : Ver.v2.startAddr = 49152 := rfl
+        rw [e2, hs, a3, a4]
+        split <;> omega
+
+/-- RE-SIGN FLOW: `update_fields()` on an already updated image changes nothing - every container is locked after the first
+    call (offsets kept), images are not encrypted twice, sizes / hashes / IVs are recomputed to the same values - for every
+    crypto instance with laws, any number of containers and images.  Hence the exported file (and the data to sign) of the second
+    call is that of the first: re-signing signs the same bytes. -/
+theorem update_fields_idempotent (c : CryptoOps) (hc : CryptoLaws c) (img : Image) (us : List UContainer)
+    (h : img.update c = .ok us) : img.update2 c = .ok us ∧ reupdateAll c img.chip img.ver us = .ok us := by
+  have h2 := update2_eq_update c hc img us h
+  refine ⟨h2, ?_⟩
+  unfold Image.update2 at h2
+  rw [h] at h2
+  exact h2
+
+/-- one entry: the second `ImageArrayEntry.update_fields()` is the identity on what the first one produced -/
+theorem entry_update_idempotent (c : CryptoOps) (hc : CryptoLaws c) (ch : Chip) (v : Ver) (dek : Option Bytes) (e : Entry) (r : Ready)
+    (h : readyEntry c ch v dek e = .ok r) : reReady c ch v e r = .ok r :=
+  reReady_fix c hc ch v dek e r h
+
 /-! ## non-vacuity and sanity checks (decidable instances of the hypotheses) -/
 
 def exChip : Chip := ⟨(findChip "mimxrt1189" "latest").getD (AhabConsts.chips.headD default), "standard"⟩ where
@@ -714,5 +903,34 @@ example : failed AhabConsts.recsContainer (containerEnv .v1 (exVC 65535 255 0xFF
 example : failed AhabConsts.recsContainer (containerEnv .v1 (exVC 65536 0 0)) = ["SW version"] := by decide
 example : failed AhabConsts.recsContainer (containerEnv .v1 (exVC 0 256 0)) = ["Fuse version"] := by decide
 example : failed AhabConsts.recsContainer (containerEnv .v1 (exVC 0 0 0x100000000)) = ["Flags"] := by decide
+
+/-! ### Phase 3 non-vacuity: a concrete image (NAND start address, one container, one image) satisfies every hypothesis of
+    `unused_slots_zero` / `no_phantom_container` / `layout_never_collides` / `update_fields_idempotent`, and the conclusions are
+    what one computes (decidable instances; the toy hash returns zeros, which is all `CryptoLaws` needs from it) -/
+def toyOps : CryptoOps := ⟨fun a _ => List.replicate a.size 0, fun _ b => fitS 16 b, fun _ b => fitS 16 b, fun _ b => b, fun _ b => b,
+  fun _ _ _ _ => [], fun _ _ _ _ => true, fun k => k⟩
+def exNand : Chip := ⟨exChip.row, "nand_2k"⟩
+def exImg : Image := ⟨.v1, exNand, [⟨0, 0, 0, [⟨[1, 2, 3, 4], 0, 0, 0, 0, 0, 0, 0⟩], ⟨[], [], [], [], none⟩, none⟩]⟩
+def exHypsOK : Bool :=
+  match exImg.export toyOps, exImg.update toyOps, exImg.update2 toyOps with
+  | .ok bin, .ok us, .ok us2 =>
+    us.length == 1 && us2.length == 1 && us.all (fun u => u.cont.sb.blob.isNone &&
+      (match u.export .v1 with | .ok cb => decide (cb.length ≤ Ver.v1.containerSize) | _ => false)) &&
+    (allPlaced us).all (fun p => decide (exNand.startAddr .v1 ≤ p.offset) && p.entry.offset == 0) &&
+    (allPlaced us2).map (·.offset) == (allPlaced us).map (·.offset) &&
+    bin.length == 7680 && bin[1024 + 3]? == some 0 && bin[3]? == some 0x87 &&
+    Spec.AhabRom.looksLikeContainer (romParams .v1 3 8) bin 0 && !Spec.AhabRom.looksLikeContainer (romParams .v1 3 8) bin 1024
+  | _, _, _ => false
+set_option maxRecDepth 100000 in
+example : exHypsOK = true := by decide
+example : exChip.row ∈ AhabConsts.chips ∧ exNand.row.containersMax = 2 ∧ exNand.isNand = true ∧
+    1 * Ver.v1.containerSize + 16 ≤ exNand.startAddr .v1 := by decide
+theorem toyOps_laws : CryptoLaws toyOps := by
+  have hfit : ∀ b : Bytes, b.length = 16 → fitS 16 b = b := fun b hb => by
+    unfold fitS; rw [List.take_append_of_le_length (by omega), ← hb, List.take_length]
+  have hlen : ∀ b : Bytes, (fitS 16 b).length = 16 := fun b => by simp [fitS]
+  exact ⟨fun _ b hb => by show fitS 16 (fitS 16 b) = b; rw [hfit b hb, hfit b hb],
+         fun _ b hb => by show fitS 16 (fitS 16 b) = b; rw [hfit b hb, hfit b hb],
+         fun _ b => hlen b, fun _ b => hlen b, fun a _ => by simp [toyOps], fun _ _ _ _ => rfl⟩
 
 end SpsdkVerif.C06
